@@ -31,6 +31,9 @@ def run(tier):
         for c in ("z", "9", None):
             txt = c * n if c else "".join(rng.choice("abcdefghijklmnopqrstuvwxyz{|}~") for _ in range(n))
             jobs.append(gen.enc("c128", onedim.U(txt), ()))
+    for n in (60, 70, 79, 80):            # as many symbol characters as a content can need (a code-set switch before every character: up to 161)
+        for unit in ("\x01a", "a\x01"):
+            jobs.append(gen.enc("c128", onedim.U((unit * 41)[:n]), ()))
     for n in (20, 40, 60, 80):
         jobs.append(gen.enc("c39", onedim.U("%" * n), (1, 0)))
         jobs.append(gen.enc("c39", onedim.U("".join(rng.choice(onedim.C39_BASIC) for _ in range(n))), (1, rng.randint(0, 1))))
